@@ -30,6 +30,7 @@ def parseInst (j : Json) : Except String Inst := do
 def check : Handler := fun j => do
   let i ← parseInst j
   pure <| Json.mkObj [("ok", Json.bool (checkSchedule i)), ("failing", Json.arr ((failing i).map Json.str).toArray),
+                      ("c6_missing", Json.arr ((c6Missing i).map fun v => Json.arr #[putNat v.kind, putInt v.seq]).toArray),
                       ("scheduled", putNat i.sched.length), ("vertices", putNat i.verts.length)]
 
 /-- {"cmd":"sched.replay", ...instance..., "sizes":[per kind], "start": k} → {"ok": bool, "consecutive": bool (hypothesis of `replay_read_live`: every kind writes consecutive sequence numbers)} -/
